@@ -145,6 +145,30 @@ def trim_choices(wb, rnd, limit):
     unread = [r for r in plain if r not in read]
     must += [c for c in allc if len(c[0]) == 1 and c[0][0] in unread][:3]
     must += [c for c in allc if len(c[0]) == 2 and set(c[0]) & set(unread)][:2]
+    # two outputs one of which feeds the other, below an input cell
+    def direct(f):
+        d = wb['formulas'].get(f)
+        if d is None:
+            return set()
+        if d[0] in ('Plus', 'Lin'):
+            return set(d[1])
+        if d[0] in ('Cat', 'CatE'):
+            return {d[1]}
+        return {c for row in wb.get('ranges', {}).get(d[1], []) for c in row}
+
+    def above(f, seen=None):
+        seen = set() if seen is None else seen
+        for p_ in direct(f):
+            if p_ not in seen:
+                seen.add(p_)
+                above(p_, seen)
+        return seen
+    anc = {f: above(f) for f in n['formulas']}
+    def between(lo, hi):        # a formula cell on a path from output lo up to output hi
+        return any(lo in anc[x] and x in anc[hi] for x in n['formulas'] if x not in (lo, hi))
+    must += [c for c in allc if len(c[0]) == 1 and c[0][0] in n['inputs'] and len(c[1]) == 2
+             and (between(c[1][0], c[1][1]) or between(c[1][1], c[1][0]))
+             and c[0][0] in anc[c[1][0]] and c[0][0] in anc[c[1][1]]][:1]
     must = [c for k, c in enumerate(must) if c not in must[:k]]
     return must + [c for c in allc if c not in must][:max(0, limit - len(must))], len(allc)
 
